@@ -96,20 +96,7 @@ fn within(f: f64, bound: f64) -> bool {
     f.is_finite() && f.abs() <= bound * 1.0000000000000004
 }
 
-// @harness c13_change_frequency
-// @props C13 C03
-// @tier quick
-// @stubbing yes
-// @timeout 1800
-// @mem 12
-// @functions KalmanFilter::change_frequency, clamp_adjustment, BaseFilter::freq_offset, BaseFilter::absorb_frequency_steer, InnerFilter::absorb_frequency_steer
-// @bounds arbitrary non-NaN estimator state (offset, frequency, delay: any f64 incl. infinities), current frequency within the bound (one rounding), target any finite f64 (what steer / update / demobilize pass), bound and max steer any finite value in (0, 10^6], clock that fails nondeterministically and returns a time not before the filter time
-// @assume InnerFilter::progress_filtertime replaced by an over-approximation (arbitrary new state, same debug_assert); the covariance algebra is outside the claim
-#[kani::proof]
-#[kani::unwind(5)]
-#[kani::stub(InnerFilter::progress_filtertime, progress_filtertime_havoc)]
-fn c13_change_frequency() {
-    let config = any_config();
+fn change_frequency_case(config: KalmanConfiguration) {
     let ft = crate::verif_root::gen::any_time();
     let ret = crate::verif_root::gen::any_time();
     kani::assume(ret >= ft);
@@ -137,6 +124,35 @@ fn c13_change_frequency() {
     kani::cover!(had_freq && clock.last_freq < 0.0, "negative command");
     kani::cover!(had_freq && clock.fail_freq, "failing clock");
 }
+
+
+// @harness c13_change_frequency
+// @props C13 C03
+// @tier quick
+// @stubbing yes
+// @timeout 2400
+// @mem 8
+// @functions KalmanFilter::change_frequency, clamp_adjustment, BaseFilter::freq_offset, BaseFilter::absorb_frequency_steer, InnerFilter::absorb_frequency_steer
+// @bounds default servo configuration (max_freq_offset 400 ppm); arbitrary non-NaN estimator state (offset, frequency, delay: any f64 incl. infinities), current frequency within the bound (one rounding), target any finite f64 (what steer / update / demobilize pass), clock that fails nondeterministically and returns a time not before the filter time
+// @assume InnerFilter::progress_filtertime replaced by an over-approximation (arbitrary new non-NaN state, filter time advanced); the covariance algebra is outside the claim
+#[kani::proof]
+#[kani::unwind(5)]
+#[kani::stub(InnerFilter::progress_filtertime, progress_filtertime_havoc)]
+fn c13_change_frequency() { change_frequency_case(KalmanConfiguration::default()) }
+
+// @harness c13_change_frequency_any_config
+// @props C13 C03
+// @tier thorough
+// @stubbing yes
+// @timeout 3600
+// @mem 8
+// @functions KalmanFilter::change_frequency, clamp_adjustment
+// @bounds as c13_change_frequency with max_freq_offset and max_steer any finite value in (0, 10^6]
+// @assume as c13_change_frequency
+#[kani::proof]
+#[kani::unwind(5)]
+#[kani::stub(InnerFilter::progress_filtertime, progress_filtertime_havoc)]
+fn c13_change_frequency_any_config() { change_frequency_case(any_config()) }
 
 // @harness c13_steer_and_step
 // @props C13 C03
